@@ -5,6 +5,7 @@ from __future__ import annotations
 import logging
 from typing import TYPE_CHECKING, Any
 
+from xknx.cemi.const import MAX_NPDU_LENGTH
 from xknx.core.value_reader import ValueReader
 from xknx.dpt import DPTArray, DPTBase, DPTBinary
 from xknx.exceptions import ConversionError
@@ -101,15 +102,22 @@ def _parse_payload(
     value: Any,
     value_type: DPTParsable | type[DPTBase] | None = None,
 ) -> DPTBinary | DPTArray:
+    payload: DPTBinary | DPTArray
     if isinstance(value, DPTArray | DPTBinary):
-        return value
-    if transcoder := _parse_dpt(value_type):
-        return transcoder.to_knx(value)
-    if isinstance(value, int):
-        return DPTBinary(value)
-    try:
-        return DPTArray(value)
-    except TypeError as err:
+        payload = value
+    elif transcoder := _parse_dpt(value_type):
+        payload = transcoder.to_knx(value)
+    elif isinstance(value, int):
+        payload = DPTBinary(value)
+    else:
+        try:
+            payload = DPTArray(value)
+        except TypeError as err:
+            raise ConversionError(
+                "Could not convert value to a raw payload", value=value
+            ) from err
+    if isinstance(payload, DPTArray) and len(payload.value) >= MAX_NPDU_LENGTH:
         raise ConversionError(
-            "Could not convert value to a raw payload", value=value
-        ) from err
+            "Payload too long for a single frame", length=len(payload.value)
+        )
+    return payload
